@@ -302,7 +302,7 @@ CHECKS["C14"] = _choice_check("C14", (160, 50, 120, 50, 24), (6000, 900, 4000, 9
 # ------------------------------------------------------------------------- clisim (C19)
 
 ASSUME_CLI = [
-    "the process boundary of the CLI is stubbed: isla.cli.main(*argv, stdout=, stderr=) runs in-process in a per-run sandbox directory (own cwd and HOME); a sample of scripts is re-run as real `python -m isla` subprocesses in the thorough tier",
+    "the process boundary of the CLI is stubbed: isla.cli.main(*argv, stdout=, stderr=) runs in-process in a per-run sandbox directory (own cwd and HOME); a deterministic sample (about one in nine) of the read-only commands (check, find) of fault-free sessions is also executed as a real `python -m isla` process in the same directory and compared (exit status, stdout); agreement counts are reported under process_boundary_stub_validation, for information only",
     "positional FILES are passed after all options (argparse does not accept interleaved positionals); .islarc is absent",
     "exit codes are judged against Oracle-G/Oracle-S on the bytes actually on disk; for an input file ending in a newline both readings (with / without that newline) are accepted",
     "under an injected Z3 fault a rejecting exit code (1) is accepted; a traceback or an accepting exit code for an invalid input never is",
@@ -318,6 +318,7 @@ def _cli_summary(lines):
     nontrivial = set()
     phases: Dict[str, int] = {}
     samples = []
+    stub_dis: List[Dict[str, Any]] = []
     virtual = 0.0
     for l in lines:
         r = l["record"]
@@ -331,6 +332,9 @@ def _cli_summary(lines):
             inconclusive[key] = inconclusive.get(key, 0) + 1
         virtual += r.get("virtual_s", 0.0)
         digests.add(r.get("digest"))
+        for dis in r.get("stub_disagreements") or []:
+            if len(stub_dis) < 5:
+                stub_dis.append(dict(dis, run_seed=l.get("run_seed")))
         if (r.get("stats") or {}).get("commands", 0) >= 2:
             nontrivial.add(r.get("digest"))
         if len(samples) < 3 and "plan" in l:
@@ -343,6 +347,9 @@ def _cli_summary(lines):
         "distinct_nontrivial": len(nontrivial),
         "rule": "one evaluation = one simulated CLI session: a sandbox directory with grammar (.bnf / .py / -g) and 1-2 constraints (.isla files and/or -c), a script of 2-6 commands (solve with -n/-d/--tree/-f/-s/-t/-k/-w/--unique-trees/--unsat-support, check, find, parse [-o], repair, mutate, usage errors, specs malformed by construction) executed in-process under the clock/PRNG/Z3 seams; three quarters of the seeds are re-executed with storage faults (empty / torn / lost / directory / garbage bytes / NUL / BOM / CRLF / extra newlines / duplicate input) placed between writing a file and the command that reads it, or Z3/clock faults inside commands. Non-trivial = at least two commands completed; distinct = distinct digest over seam events and command outcomes.",
         "samples": samples or [{"note": "none"}],
+        "process_boundary_stub_validation": {"commands_also_run_as_real_process": stats.get("stub_validation_agree", 0) + stats.get("stub_validation_disagree", 0),
+                                             "agree": stats.get("stub_validation_agree", 0), "disagree": stats.get("stub_validation_disagree", 0),
+                                             "real_process_lost": stats.get("stub_validation_subprocess_lost", 0), "disagreements": stub_dis},
         "commands_executed": stats.get("commands", 0),
         "runs_fault_free": phases.get("dry", 0),
         "runs_faulted": phases.get("faulted", 0),
